@@ -165,6 +165,7 @@ def corr_family(pid, fam, seed, count, tag, extra_args=()):
     mods = open(os.path.join(out, "model.txt")).read().split("\n")
     cases = open(os.path.join(out, "case.txt")).read().split("\n") if os.path.exists(os.path.join(out, "case.txt")) else None
     n = max(len(reqs), len(imps), len(mods))
+    res["known_hits"] = {}
     for i in range(n):
         r = reqs[i] if i < len(reqs) else ""
         a = imps[i] if i < len(imps) else "<missing>"
@@ -173,11 +174,19 @@ def corr_family(pid, fam, seed, count, tag, extra_args=()):
             d = {"kind": "model-vs-impl", "family": fam, "seed": seed, "line": i,
                  "case": (int(cases[i]) if cases and i < len(cases) and cases[i] else None),
                  "request": r, "impl": a, "model": b}
-            if a.startswith("!monitor"):
+            if b.startswith("!monitor"):
+                # the oracle (property wording, evaluated by the Lean monitor) rejects what the
+                # implementation produced: implementation-vs-oracle, not a model disagreement
                 d["kind"] = "impl-vs-oracle"
-            res["disagreements"].append(d)
-            if len(res["disagreements"]) >= 20:
-                break
+                d["monitor_ids"] = b.split()[1:]
+                ks = known.match(pid, d)
+                if ks:
+                    for k in ks:
+                        res["known_hits"].setdefault(k["id"], {"entry": k, "count": 0, "first": d})
+                        res["known_hits"][k["id"]]["count"] += 1
+                    continue
+            if len(res["disagreements"]) < 20:
+                res["disagreements"].append(d)
     return res
 
 
@@ -251,25 +260,20 @@ def main(argv):
                 proof_problems.append({"kind": "proof-broken", "what": "leanchecker rejected " + cfg["module"], "detail": out3[-2000:]})
 
     failing_inputs = []
+    lines = []
+    seen_known = {}
     for r in corr:
         for d in r["impl_failures"]:
             violations.append({"kind": "correspondence-broken", "what": d.get("kind"), "detail": d.get("detail"), "family": r["family"]})
-        for d in r["disagreements"]:
-            k = known.match(pid, d)
-            if k:
-                known_hits.append((k, d))
+        failing_inputs += r["disagreements"]
+        for kid, h in r.get("known_hits", {}).items():
+            if kid in seen_known:
+                seen_known[kid]["count"] += h["count"]
             else:
-                failing_inputs.append(d)
-
-    lines = []
-    seen_known = set()
-    for k, d in known_hits:
-        if k["id"] not in seen_known:
-            seen_known.add(k["id"])
-            lines.append(f"KNOWN-FINDING: property={pid} {k['id']}: {k['description']}")
-    for l in known.static_lines(pid):
-        if l not in lines:
-            lines.append(l)
+                seen_known[kid] = dict(h)
+    for kid in sorted(seen_known):
+        k = seen_known[kid]["entry"]
+        lines.append(f"KNOWN-FINDING: property={pid} {kid}: {k['description']} ({seen_known[kid]['count']} instances in this run)")
 
     exit_code = 0
     if failing_inputs:
@@ -317,7 +321,7 @@ def main(argv):
             "families": [{"family": r["family"], "evaluations": r["meta"].get("evaluations", 0),
                           "distinct_nontrivial": r["meta"].get("distinct_nontrivial", 0),
                           "histogram": r["meta"].get("histogram", {})} for r in corr],
-            "known_findings_hit": sorted(seen_known),
+            "known_findings_hit": {k: v["count"] for k, v in seen_known.items()},
         },
         "assumptions": TRUSTED_BASE + cfg.get("modelled_not_verified", []),
         "wall_s": round(time.time() - t0, 2),
